@@ -173,6 +173,103 @@ def in_process(h: Harness):
                            [gram.spec_sx_str(spec), k, seedv])
 
 
+def history_independence(h: Harness):
+    """the same configuration and seed give the same search whether the classes are fresh or were used by an earlier grammar
+    and then re-declared in place (`Var.__init__.__annotations__["name"] = Annotated[str, VarRange(names)]`, as the example
+    scripts do): a fresh process starts from the re-declared state, so both are "the same seed, the same search" """
+    from geneticengine.algorithms.random_search import RandomSearch
+    from geneticengine.evaluation.budget import EvaluationBudget
+    from geneticengine.problems import SingleObjectiveProblem
+    from geneticengine.representations.tree.treebased import TreeBasedRepresentation
+    C = gram.ClassSpec
+    rng = h.rng
+    for trial in range(h.n(4, 30)):
+        spec = gram.Spec([C("A0", True, None), C("Var", False, 0, [("name", ("ann", "str", ("varRange", ["x", "y"])))]),
+                          C("Lit", False, 0, [("v", ("ann", "int", ("intRange", 0, 9)))]),
+                          C("Add", False, 0, [("l", ("cls", 0)), ("r", ("cls", 0))])], 0, [1, 2, 3])
+        seedv = rng.randrange(10**6)
+
+        def search(b, g):
+            log = []
+            problem = SingleObjectiveProblem(lambda p: (log.append(sx(gram.canon(p, b, meta=False))), float(len(log) % 7))[1])
+            r = NativeRandomSource(seedv)
+            rep = TreeBasedRepresentation(g, synth.make_decider("grow", 4, r, g))
+            best = RandomSearch(problem, EvaluationBudget(15), rep, r).search()
+            return log, sx(gram.canon(best.get_phenotype(), b, meta=False))
+        b = gram.build(spec)
+        search(b, b.extract())                                   # an earlier run on these classes
+        gram.retarget(b, 1, "name", ("ann", "str", ("varRange", ["a", "b", "c"])))
+        gram.retarget(b, 2, "v", ("ann", "int", ("intRange", 50, 60)))
+        with_history = search(b, b.extract())
+        b2 = gram.build(spec)                                    # the same declarations on classes nobody has used
+        fresh = search(b2, b2.extract())
+        h.seen(f"history:{trial}:{seedv}", nontrivial=True)
+        h.count("history-independence-searches")
+        if with_history != fresh:
+            k = next((i for i, (x, y) in enumerate(zip(with_history[0], fresh[0])) if x != y), None)
+            h.fail("tree", "irreproducible-after-earlier-use-of-the-classes",
+                   f"RandomSearch(seed {seedv}) after the classes had been used and re-declared: evaluation #{k} is "
+                   f"{with_history[0][k][:80] if k is not None else with_history[1][:80]}, on fresh classes with the same declarations it is "
+                   f"{fresh[0][k][:80] if k is not None else fresh[1][:80]}", [seedv, trial])
+
+
+def layout_independence(h: Harness):
+    """the grammar analysis iterates SETS of classes, whose order follows the classes' addresses: the same declarations
+    under different (emulated) memory layouts -- classes whose hash the harness chooses -- must be analysed identically
+    and give the same programs for the same seed"""
+    import props.c05 as c05
+    from linear import safe
+    from geneticengine.representations.tree.treebased import TreeBasedRepresentation
+    C = gram.ClassSpec
+    rng = h.rng
+
+    def ring(n, abstract_root):
+        classes = [C("Leaf", False, None, [])]
+        for i in range(n):
+            classes.append(C(f"R{i}", False, None, [("x", ("union", ("cls", 1 + (i + 1) % n), ("cls", 0)))]))
+        if abstract_root:
+            classes = [C("Root", True, None)] + [C(c.name, False, 0 if c.parent is None else c.parent,
+                                                   [(fn, ("union",) + tuple(("cls", t[1] + 1) for t in ft[1:])) for fn, ft in c.fields]) for c in classes]
+            return gram.Spec(classes, 0, list(range(1, len(classes))))
+        return gram.Spec(classes, 1, list(range(len(classes))))
+    specs = [ring(3, False), ring(4, False), ring(5, True), ring(3, True)]
+    for _ in range(h.n(2, 10)):
+        specs.append(gram.productive_spec(rng, max_classes=rng.choice([4, 6]), opts={"float": False}))
+    for spec in specs:
+        n = len(spec.classes)
+        ref = None
+        seedv = rng.randrange(10**6)
+        for layout in range(h.n(10, 40)):
+            hashes = [rng.randrange(1, 2**20) for _ in range(n)] if layout else list(range(8, 8 * n + 8, 8))
+            b = gram.build(spec, hashes)
+            try:
+                g = b.extract()
+            except Exception as e:  # noqa: BLE001
+                obs = ("extract-error", type(e).__name__)
+            else:
+                alts, dist = c05.observe(b, g)
+                progs = []
+                for kind in ("full", "pigrow"):
+                    for k in range(3):
+                        r = NativeRandomSource(seedv + k)
+                        st, p = safe(lambda: TreeBasedRepresentation(g, synth.make_decider(kind, g.get_min_tree_depth() + 3, r, g)).create_genotype(r))
+                        progs.append(sx(gram.canon(p, b, meta=False)) if st == "ok" else f"err:{p}")
+                obs = (alts, dist, c05.syms(b, g.recursive_prods), c05.syms(b, g.terminals), progs)
+            h.count("emulated-memory-layouts")
+            if ref is None:
+                ref = obs
+                h.seen("layout:" + gram.spec_sx_str(spec), nontrivial=True)
+            elif obs != ref:
+                what = next((nm for nm, x, y in zip(("productions", "minimum depths", "recursive symbols", "terminals", "created programs"), ref, obs) if x != y), "result")
+                k = ("productions", "minimum depths", "recursive symbols", "terminals", "created programs").index(what) if what != "result" else 0
+                h.fail("extract_grammar", "depends-on-set-iteration-order",
+                       f"the same declarations analysed under another memory layout (class hashes {hashes}) differ in their {what}: "
+                       f"{str(ref[k])[:150]} vs {str(obs[k])[:150]}", [gram.spec_sx_str(spec), hashes])
+                break
+
+
 def run(h: Harness):
+    history_independence(h)
+    layout_independence(h)
     in_process(h)
     cross_process(h)
